@@ -172,7 +172,7 @@ func restoreSig(m Mut, what string) string {
 		k = "tmp-left"
 	case strings.Contains(what, "crashed the process"):
 		k = "crash"
-	case strings.Contains(what, "returned nil but"):
+	case strings.Contains(what, "returned nil but"), strings.Contains(what, "returned nil although"):
 		k = "silent-wrong-output"
 	case strings.Contains(what, "pre-existing") || strings.Contains(what, "although the output path existed"):
 		k = "overwrite"
@@ -411,6 +411,13 @@ func jobsFor(r *hx.Rand, env *replicaEnv, h HistSpec, scratch string, all bool, 
 		add(Mut{Kind: "none", Integrity: 0}, nil)
 		return jobs, nil
 	}
+	// deletions anywhere in the replica: what "latest" must mean when files exist beyond an unbridgeable gap
+	if err := gapJobs(env, scratch, add, res); err != nil {
+		return nil, err
+	}
+	if h.GapOnly {
+		return jobs, nil
+	}
 	add(Mut{Kind: "none"}, nil)
 	add(Mut{Kind: "none", Integrity: 1}, nil)
 	add(Mut{Kind: "none", Integrity: 2}, nil)
@@ -560,12 +567,127 @@ func jobsFor(r *hx.Rand, env *replicaEnv, h HistSpec, scratch string, all bool, 
 	return jobs, nil
 }
 
+// gapJobs: delete (on disk, through the real file backend) every replica file in turn — and every
+// level-0 file together with the upper-level file covering it — then restore "latest", to the newest
+// TXID present, to the newest reachable TXID, and by timestamp.  Expectation, computed by brute force
+// from the remaining files (never from the planner):
+//   - latest: if some remaining file ends beyond the furthest TXID reachable by a contiguous chain from
+//     TXID 1, the replica has an unbridgeable gap and Restore must return an error (the unchanged code:
+//     "non-contiguous ltx files"); otherwise it must produce the reference state of that TXID;
+//   - TXID T: success only if a chain ends exactly at T, with the reference state of T;
+//   - timestamp: the reference state of the furthest TXID reachable with files created before it.
+func gapJobs(env *replicaEnv, scratch string, add func(Mut, func(*restoreJob)), res *hx.Result) error {
+	files, err := allFiles(env.client)
+	if err != nil {
+		return err
+	}
+	hasSnap, maxAll := false, 0
+	for _, f := range files {
+		hasSnap = hasSnap || f.Level == 9
+		maxAll = max(maxAll, f.Max)
+	}
+	if !hasSnap {
+		return nil
+	}
+	var names []string
+	for _, f := range files {
+		names = append(names, fmt.Sprintf("L%d:%d-%d", f.Level, f.Min, f.Max))
+	}
+	res.Notes = append(res.Notes, "gap stream over replica files "+strings.Join(names, " "))
+	ref := map[int][]byte{}
+	for t := 1; t <= maxAll; t++ {
+		b, err := pristineRestore(env, filepath.Join(scratch, "pristine"), ltx.TXID(t))
+		if err != nil {
+			return fmt.Errorf("reference restore at TXID %d: %w", t, err)
+		}
+		ref[t] = b
+	}
+	var sets [][]rfile
+	for _, f := range files {
+		sets = append(sets, []rfile{f})
+		if f.Level == 0 {
+			for _, g := range files {
+				if g.Level > 0 && g.Level < 9 && g.Min <= f.Min && f.Max <= g.Max {
+					sets = append(sets, []rfile{f, g})
+				}
+			}
+		}
+	}
+	for _, del := range sets {
+		var remain []rfile
+		for _, f := range files {
+			gone := false
+			for _, d := range del {
+				gone = gone || d == f
+			}
+			if !gone {
+				remain = append(remain, f)
+			}
+		}
+		var ids []planID
+		for _, d := range del {
+			ids = append(ids, planID{Level: d.Level, Min: uint64(d.Min), Max: uint64(d.Max)})
+		}
+		any := func(rfile) bool { return true }
+		reach := maxKey(reachSet(remain, any))
+		maxRemain, lastCreated := 0, int64(0)
+		for _, f := range remain {
+			maxRemain = max(maxRemain, f.Max)
+			lastCreated = max(lastCreated, f.Created)
+		}
+		mk := func(m Mut, target int, mustErr string) {
+			m.Kind, m.Files, m.MustErr = "disk-delete-set", ids, mustErr
+			add(m, func(j *restoreJob) {
+				if mustErr != "" {
+					j.failStep, j.want = "calcPlan", nil
+				} else {
+					j.want = ref[target]
+				}
+			})
+		}
+		// latest
+		switch {
+		case reach == 0:
+			mk(Mut{}, 0, "no chain from TXID 1 remains")
+		case maxRemain > reach:
+			mk(Mut{}, 0, fmt.Sprintf("replica files up to TXID %d exist beyond an unbridgeable gap after TXID %d (latest must not be silently older)", maxRemain, reach))
+			res.Count("restore/gap-unbridged")
+		default:
+			mk(Mut{}, reach, "")
+			res.Count("restore/gap-bridged-or-tail")
+		}
+		// TXID targets: the newest TXID present (beyond the gap, if any) and the newest reachable one
+		for _, T := range []int{maxRemain, reach} {
+			if T == 0 {
+				continue
+			}
+			ends := reachSet(remain, func(f rfile) bool { return f.Max <= T })
+			if ends[T] {
+				mk(Mut{TXID: uint64(T)}, T, "")
+			} else {
+				mk(Mut{TXID: uint64(T)}, 0, fmt.Sprintf("no contiguous chain ends at the requested TXID %d", T))
+			}
+		}
+		// timestamp just after the newest remaining file
+		ts := lastCreated + 1
+		rts := maxKey(reachSet(remain, func(f rfile) bool { return f.Created < ts }))
+		if rts == 0 {
+			mk(Mut{TS: ts}, 0, "no chain from TXID 1 remains before the timestamp")
+		} else {
+			mk(Mut{TS: ts}, rts, "")
+		}
+	}
+	return nil
+}
+
 func histSpecs(r *hx.Rand, tier string) []HistSpec {
 	hs := []HistSpec{
 		{Seed: r.Uint64(), NTx: 3, PageSize: 512},
 		{Seed: r.Uint64(), NTx: 4, PageSize: 512, CompactAt: 2},
 		{Seed: r.Uint64(), NTx: 3, PageSize: 1024, SnapshotAt: 2},
 		{Seed: r.Uint64(), NTx: 2, PageSize: 512, CorruptSrc: true},
+		{Seed: r.Uint64(), NTx: 5, PageSize: 512, SnapshotAt: 2, GapOnly: true},               // snapshot, then only L0
+		{Seed: r.Uint64(), NTx: 6, PageSize: 512, SnapshotAt: 2, CompactAt: 4, GapOnly: true}, // snapshot, L1 bridging, L0
 		{Seed: r.Uint64(), NTx: 2, PageSize: 512, BadImage: "magic"},
 		{Seed: r.Uint64(), NTx: 2, PageSize: 1024, BadImage: "page1hdr"},
 		{Seed: r.Uint64(), NTx: 3, PageSize: 512, BadImage: "schema"},
